@@ -6,8 +6,11 @@
     §B  the generic backend computes it: cells of any row range, `unstripe` of a full scan,
         `score_position`; no panic                                   (theorem groups (3) and (6))
     §C  exact arithmetic: the scalar-order sum IS the sum, and is ⊥ iff a term is   (group (4))
+    §D  the SIMD backends equal the generic backend, cell for cell, over any carrier:
+        AVX2 permute / gather / u8 shuffle with NO law about `add`                    (group (1))
 -/
 import LMV.Lemmas.Score
+import LMV.Lemmas.ScoreAvx2
 import LMV.Props.C04
 import Mathlib.Algebra.Ring.Rat
 import Mathlib.Algebra.Order.Monoid.Unbundled.WithTop
@@ -221,6 +224,115 @@ theorem windowScore_eq_bot_iff (pssm : Mat (WithBot ℚ) K) (N : Nat) (s : List 
     exact ⟨_, List.mem_map.mpr ⟨j, List.mem_range.mpr hj, rfl⟩, hb⟩
 
 end exact
+
+/-! ## §D  the SIMD backends equal the generic backend -/
+
+/-- every cell of the sequence matrix is a symbol index of the alphabet (in the Rust this is the
+    type of the cells: `A::Symbol`, an enum with `K` variants stored in one byte) -/
+def SymOK (K : Nat) (seq : Striped C) : Prop :=
+  ∀ r c, r < seq.data.rows → c < C → seq.data.getD r c 0 < K
+
+/-- the in-contract reads of a scan of rows `a .. b` stay inside the matrix and see alphabet symbols -/
+theorem reads_ok (pssm : Mat α K) (seq : Striped C) (a b : Nat)
+    (hW : pssm.rows - 1 ≤ seq.wrap) (hb : b ≤ seq.data.rows - seq.wrap) (hsym : SymOK K seq) :
+    ∀ k j col, k < b - a → j < pssm.rows → col < C →
+      a + k + j < seq.data.rows ∧ seq.data.getD (a + k + j) col 0 < K := by
+  intro k j col hk hj hcol
+  have h : a + k + j < seq.data.rows := by omega
+  exact ⟨h, hsym _ _ h hcol⟩
+
+/-- the guards of the SIMD wrappers are those of the generic code once `M ≥ 1`, `wrap ≥ M − 1` and
+    the range ends inside the sequence rows; what remains is the kernel against the generic loops -/
+theorem simdWrapper_eq_generic (zero : α) (add : α → α → α) (pssm : Mat α K) (seq : Striped C)
+    (a b : Nat) (sc : Scores α C) (run : Mat α C → Mat α C)
+    (hM : 1 ≤ pssm.rows) (hW : pssm.rows - 1 ≤ seq.wrap) (hb : b ≤ seq.data.rows - seq.wrap)
+    (hsym : SymOK K seq)
+    (hrun : ∀ d, run d = genericRows zero add pssm seq.data a (b - a) d) :
+    simdWrapper zero pssm seq a b sc run = scoreRowsGeneric zero add pssm seq a b sc := by
+  unfold simdWrapper scoreRowsGeneric
+  rw [if_neg (by omega), if_neg (by omega)]
+  by_cases hexit : seq.length < pssm.rows ∨ b ≤ a
+  · rw [if_pos hexit, if_pos hexit]
+  · rw [if_neg hexit, if_neg hexit]
+    simp only [resize]
+    rw [if_neg (by omega), rowsGeneric_ok zero add pssm seq.data a (b - a) _
+      (reads_ok pssm seq a b hW hb hsym), hrun]
+
+theorem sext32_small (v : Nat) (h : v < 2147483648) : Isa.sext32 v = Int.ofNat v := by
+  unfold Isa.sext32
+  have : v % 4294967296 = v := Nat.mod_eq_of_lt (by omega)
+  rw [this, if_pos h]
+
+/-- **C01 (1), AVX2 permute kernel (`K ≤ 8`, DNA).**  For EVERY carrier, `zero` and `add` (no law:
+    the statement holds for IEEE `f32` as executed, `-inf`, rounding and all), every motif of
+    `M ≥ 1` rows, every sequence matrix with at least `M − 1` wrap rows, every row range ending
+    inside the sequence rows and every previous content of the score buffer, the AVX2 wrapper +
+    kernel returns exactly what the generic code returns: same panic/no-panic, same `max_index`,
+    same matrix cell for cell.  The lane bookkeeping (shuffle masks → dword lanes → look-up →
+    `permute2f128` → store offsets) is discharged by `Avx2.permute_table`, a kernel evaluation of the
+    complete 32-column table regenerated from avx2.rs. -/
+theorem scorePermute_eq_generic (zero : α) (add : α → α → α) (pssm : Mat α K) (hK : K ≤ 8)
+    (seq : Striped 32) (a b : Nat) (sc : Scores α 32)
+    (hM : 1 ≤ pssm.rows) (hW : pssm.rows - 1 ≤ seq.wrap) (hb : b ≤ seq.data.rows - seq.wrap)
+    (hsym : SymOK K seq) :
+    Avx2.scorePermute zero add pssm seq a b sc = scoreRowsGeneric zero add pssm seq a b sc := by
+  unfold Avx2.scorePermute
+  rw [if_neg (by omega)]
+  apply simdWrapper_eq_generic zero add pssm seq a b sc _ hM hW hb hsym
+  intro d
+  apply Avx2.kernel_eq_genericRows Avx2.permuteTables Avx2.permute_table zero add pssm
+    (Avx2.lookupPermute zero pssm) (fun j sym => pssm.getD j (sym % 8) zero)
+  · intro j idx l; rfl
+  · intro j sym hs
+    rw [Nat.mod_eq_of_lt (by omega)]
+  · intro k j col hk hj hcol
+    exact (reads_ok pssm seq a b hW hb hsym k j col hk hj hcol).2
+
+/-- **C01 (1), AVX2 gather kernel (any alphabet whose symbols are bytes, e.g. protein `K = 21`).** -/
+theorem scoreGather_eq_generic (zero : α) (add : α → α → α) (pssm : Mat α K) (hK : K ≤ 256)
+    (seq : Striped 32) (a b : Nat) (sc : Scores α 32)
+    (hM : 1 ≤ pssm.rows) (hW : pssm.rows - 1 ≤ seq.wrap) (hb : b ≤ seq.data.rows - seq.wrap)
+    (hsym : SymOK K seq) :
+    Avx2.scoreGather zero add pssm seq a b sc = scoreRowsGeneric zero add pssm seq a b sc := by
+  unfold Avx2.scoreGather
+  apply simdWrapper_eq_generic zero add pssm seq a b sc _ hM hW hb hsym
+  intro d
+  apply Avx2.kernel_eq_genericRows Avx2.gatherTables Avx2.gather_table zero add pssm
+    (Avx2.lookupGather zero pssm)
+    (fun j sym => if 0 ≤ Isa.sext32 sym then pssm.getD j (Isa.sext32 sym).toNat zero else zero)
+  · intro j idx l; rfl
+  · intro j sym hs
+    rw [sext32_small sym (by omega)]
+    simp
+  · intro k j col hk hj hcol
+    exact (reads_ok pssm seq a b hW hb hsym k j col hk hj hcol).2
+
+/-- `Avx2::score_f32_rows_into` (permute when `K ≤ 8`, gather otherwise) = generic -/
+theorem scoreF32Avx2_eq_generic (zero : α) (add : α → α → α) (pssm : Mat α K) (hK : K ≤ 256)
+    (seq : Striped 32) (a b : Nat) (sc : Scores α 32)
+    (hM : 1 ≤ pssm.rows) (hW : pssm.rows - 1 ≤ seq.wrap) (hb : b ≤ seq.data.rows - seq.wrap)
+    (hsym : SymOK K seq) :
+    Avx2.scoreF32 zero add pssm seq a b sc = scoreRowsGeneric zero add pssm seq a b sc := by
+  unfold Avx2.scoreF32
+  split
+  · rename_i h
+    exact scorePermute_eq_generic zero add pssm h seq a b sc hM hW hb hsym
+  · exact scoreGather_eq_generic zero add pssm hK seq a b sc hM hW hb hsym
+
+/-- **C01 (1), AVX2 `u8` shuffle kernel (`K ≤ 16`).**  With the SAME lane addition on both sides —
+    in particular the saturating `adds_epu8` — the byte-shuffle kernel equals the generic loops;
+    every one of the 32 byte lanes is handled (per-128-bit-lane shuffle of the broadcast row). -/
+theorem scoreU8_eq_generic (zero : α) (add : α → α → α) (pssm : Mat α K) (hK : K ≤ 16)
+    (seq : Striped 32) (a b : Nat) (sc : Scores α 32)
+    (hM : 1 ≤ pssm.rows) (hW : pssm.rows - 1 ≤ seq.wrap) (hb : b ≤ seq.data.rows - seq.wrap)
+    (hsym : SymOK K seq) :
+    Avx2.scoreU8 zero add pssm seq a b sc = scoreRowsGeneric zero add pssm seq a b sc := by
+  unfold Avx2.scoreU8
+  apply simdWrapper_eq_generic zero add pssm seq a b sc _ hM hW hb hsym
+  intro d
+  apply Avx2.kernelU8_eq_genericRows zero add pssm hK
+  intro k j col hk hj hcol
+  exact (reads_ok pssm seq a b hW hb hsym k j col hk hj hcol).2
 
 end C01
 end LMV
